@@ -362,8 +362,13 @@ def _shape(ctx, index):
 def _keywords(ctx, index):
     emit = index.func("cdd.shared.ast_utils.param2argparse_param")
     pop = index.func("cdd.argparse_function.utils.emit_utils.parse_out_param")
-    w = keywords_written(emit)
-    r = keywords_read(pop)
+    from ..core import RefGraph
+    from ..region import Region
+
+    g_ = RefGraph(index)
+    # the emitter / the reader and the private helpers only they use
+    w = set().union(*(keywords_written(h) for h in Region(index, g_, emit, allow_passed=True).funcs))
+    r = set().union(*(keywords_read(h) for h in Region(index, g_, pop, allow_passed=True).funcs))
     ctx.count("argparse_keywords_written", len(w))
     ctx.count("argparse_keywords_read", len(r))
     for k in CORE_KEYWORDS:
@@ -436,7 +441,10 @@ def _order_rule(ctx, index):
     rd = index.func("cdd.argparse_function.utils.emit_utils._handle_keyword")
     reorder = ("sorted", "set", "frozenset", "reversed", "dict.fromkeys", "OrderedDict.fromkeys")
     n = 0
-    for node in iter_own(emit.node):
+    from ..core import RefGraph
+    from ..region import Region
+
+    for _h, node in Region(index, RefGraph(index), emit, allow_passed=True).nodes():
         if isinstance(node, ast.Call) and norm(node.func).endswith("keyword") and any(k.arg == "arg" and isinstance(k.value, ast.Constant) and k.value.value == "choices" for k in node.keywords):
             n += 1
             val = [k.value for k in node.keywords if k.arg == "value"][0]
